@@ -1,0 +1,25 @@
+//go:build verif
+// +build verif
+
+package streams
+
+import "sync/atomic"
+
+// Only compiled with the "verif" build tag: lets an external deterministic scheduler take
+// control immediately before each atomic step of GetStream / Clear.
+
+var verifYieldFn atomic.Value // of func(int)
+
+// VerifSetYield installs (or, with nil, removes) the function called at every yield point.
+func VerifSetYield(f func(point int)) {
+	if f == nil {
+		f = func(int) {}
+	}
+	verifYieldFn.Store(f)
+}
+
+func verifYield(point int) {
+	if f, _ := verifYieldFn.Load().(func(int)); f != nil {
+		f(point)
+	}
+}
